@@ -31,6 +31,11 @@ pub struct OracleState {
     pub stats_pending: Vec<(i64, String)>,
     /// C14: lints ignored through HarperIgnoreLint, tracked through the edits of their document
     pub ignored_tracked: Vec<IgnoredTracked>,
+    /// C10: files that existed before the session (other programs' files, dictionaries at the
+    /// default locations): path -> content
+    pub foreign_files: BTreeMap<String, Vec<u8>>,
+    /// C10: paths the server itself has created in this session
+    pub created_by_server: std::collections::BTreeSet<String>,
 }
 
 pub struct IgnoredTracked {
@@ -483,18 +488,25 @@ fn collect_seam_log(sim: &mut Sim) {
 fn check_closed_world(sim: &mut Sim, final_: bool) {
     collect_seam_log(sim);
     let log = sim.oracle_state.fs_log.clone();
-    // a temporary file that is renamed onto an allowed file counts as that file
+    // a temporary file that is renamed onto an allowed file counts as that file - provided the
+    // server created it itself: moving somebody else's file away is a removal of that file
     let mut renamed_ok: Vec<String> = vec![];
+    let mut bad: Vec<String> = vec![];
     for l in &log {
+        if let Some(p) = l.strip_prefix("W ") {
+            sim.oracle_state.created_by_server.insert(norm(p));
+        }
         if let Some(r) = l.strip_prefix("MV ") {
             if let Some((from, to)) = r.split_once('\t') {
-                if write_allowed(sim, to) && parent(&norm(from)) == parent(&norm(to)) {
+                let own = sim.oracle_state.created_by_server.contains(&norm(from));
+                if write_allowed(sim, to) && parent(&norm(from)) == parent(&norm(to)) && own {
                     renamed_ok.push(norm(from));
+                } else if !write_allowed(sim, from) && !own {
+                    bad.push(format!("RM {from} (moved to {to})"));
                 }
             }
         }
     }
-    let mut bad: Vec<String> = vec![];
     for l in &log {
         if l.starts_with("NET ") {
             bad.push(l.clone());
@@ -545,8 +557,25 @@ fn check_closed_world(sim: &mut Sim, final_: bool) {
         let mut files = vec![];
         crate::seam::as_harness(|| walk(std::path::Path::new("w"), &mut files));
         let mut stray = vec![];
+        // what was there before the session and is none of the server's business is still there, unchanged
+        let foreign = sim.oracle_state.foreign_files.clone();
+        for (abs, content) in &foreign {
+            if write_allowed(sim, abs) {
+                continue;
+            }
+            let rel = format!("w/{}", abs.strip_prefix(&format!("{WORLD}/")).unwrap_or(abs));
+            match crate::seam::as_harness(|| std::fs::read(&rel)) {
+                Ok(now) if now == *content => {}
+                Ok(_) => stray.push(format!("{abs} (a file that existed before the session was modified)")),
+                Err(_) => stray.push(format!("{abs} (a file that existed before the session is gone)")),
+            }
+        }
+        sim.res.count("c10_foreign_files_checked", foreign.len() as u64);
         for f in files {
             let abs = format!("{}/{}", WORLD, f.strip_prefix("w/").unwrap_or(&f));
+            if foreign.contains_key(&abs) {
+                continue;
+            }
             if let Some(d) = sim.client.docs.iter().find(|d| d.path == abs) {
                 let on_disk = crate::seam::as_harness(|| std::fs::read_to_string(&f)).unwrap_or_default();
                 if d.disk.as_deref() != Some(on_disk.as_str()) {
